@@ -55,6 +55,9 @@ def make_acs(rng, b, spatial, kind, as_bool):
         m = torch.zeros(mshape)
         lo, hi = w // 2 - max(w // 4, 0), w // 2 + max(w // 4, 1)
         m[..., max(lo, 0):max(hi, 1), :] = 1.0
+    elif kind == "weighted":     # non-boolean mask values: `where(mask == 0, 0, k)` keeps the data, a product would not
+        m = torch.tensor([rng.choice([0, 2, 3]) for _ in range(math.prod(mshape))], dtype=torch.float32).reshape(mshape)
+        return m
     else:
         m = torch.tensor([rng.choice([0, 1, 1]) for _ in range(math.prod(mshape))], dtype=torch.float32).reshape(mshape)
     return m.bool() if as_bool else m
@@ -142,7 +145,7 @@ def correspondence_ext(ctx: Ctx):
         b, c = rng.choice([1, 1, 2]), rng.choice([1, 2, 2, 3])
         kind = rng.choice(["dyadic", "pythagorean", "pythagorean"])
         k, zc = base.gen_coil_image(rng, b, c, spatial, kind)
-        acs_kind = rng.choice(["full", "full", "empty", "partial", "partial", "centre"])
+        acs_kind = rng.choice(["full", "full", "empty", "partial", "partial", "centre", "weighted"])
         acs = make_acs(rng, b, spatial, acs_kind, rng.random() < 0.5)
         shape = list(k.shape)
         mfull = (acs + 0.0).expand([b, 1] + spatial + [1]).reshape(-1)
@@ -163,7 +166,7 @@ def correspondence_ext(ctx: Ctx):
                 return "err InputModified"
             return base.ok_rats(shape, out)
         yield {"line": base.pline("estgauss", shape, sigma_group(sig), base.int_data(k), base.int_data(mfull)), "impl": base._impl(run),
-               "nontrivial": c >= 2 or acs_kind in ("partial", "centre"),
+               "nontrivial": c >= 2 or acs_kind in ("partial", "centre", "weighted"),
                "bucket": f"estgauss/{size_class(spatial)}/sigma={sigma_float(sig)}/c={c}/acs={acs_kind}" + ("/zero-coil" if zc else "")}
     # ---- the three map types flow into the common tail (planted ESPIRiT calibrator) --------------------------------
     for i in range(ctx.budget(45, 600)):
@@ -666,7 +669,50 @@ def oracle_boundary(ctx: Ctx, deep: bool):
 
 
 # --------------------------------------------------------------------------------------------------
+# oracle: non-finite k-space entries OFF the ACS mask never reach the map (apply_mask = where(mask == 0, 0, k))
+def offmask_case(spec: dict):
+    import direct.data.transforms as T
+    from direct.data.mri_transforms import EstimateSensitivityMapModule, SensitivityMapType
+    spatial = list(spec["spatial"])
+    shape = [1, spec["c"]] + spatial + [2]
+    k = _kdata(spec["seed"], shape, 0, "plain")
+    acs = make_acs(__import__("random").Random(spec["seed"]), 1, spatial, "centre", True)
+    off = (~acs).expand([1, spec["c"]] + spatial + [2])
+    bad = k.clone()
+    bad[off] = torch.tensor([float("inf"), float("-inf"), float("nan")])[torch.arange(int(off.sum())) % 3]
+    clean = k.clone()
+    clean[off] = 0.0
+    outs = []
+    for data in (bad, clean):
+        mod = EstimateSensitivityMapModule(backward_operator=T.ifft2, type_of_map=SensitivityMapType.RSS_ESTIMATE, gaussian_sigma=spec["sigma"])
+        with warnings.catch_warnings():
+            warnings.simplefilter("ignore")
+            outs.append(mod({"kspace": data.clone(), "acs_mask": acs.clone()})["sensitivity_map"])
+    if not torch.isfinite(outs[0]).all():
+        return "offmask-nonfinite", "Inf/NaN k-space entries outside the ACS mask reach the sensitivity map"
+    if not torch.equal(outs[0], outs[1]):
+        return "offmask-dependence", "the map depends on k-space entries outside the ACS mask"
+    return base.check_map(outs[0], None, "offmask")
+
+
+def oracle_offmask(ctx: Ctx, deep: bool):
+    rng = ctx.rng
+    for spatial in [(4, 4), (3, 5), (1, 4), (2, 3, 4), (1, 1, 5)]:
+        for sigma in (None, 0.5):
+            for _ in range(ctx.budget(1, 6)):
+                spec = {"spatial": list(spatial), "sigma": sigma, "c": rng.choice([1, 2, 3]), "seed": rng.randrange(1, 2 ** 20)}
+                ctx.count(("o-offmask", tuple(spatial), sigma, spec["c"], spec["seed"]), True, bucket=f"oracle/off-mask-nonfinite/sigma={sigma}")
+                try:
+                    res = offmask_case(spec)
+                except Exception as e:  # noqa: BLE001
+                    res = ("offmask-raises", f"raises {err_name(e)}: {str(e)[:200]}")
+                if res:
+                    yield Violation(res[0], res[1] + f" [{spec}]", {"op": "offmask", "spec": spec})
+
+
+# --------------------------------------------------------------------------------------------------
 def oracle_ext(ctx: Ctx, deep: bool):
+    yield from oracle_offmask(ctx, deep)
     yield from oracle_matrix(ctx, deep)
     yield from oracle_espirit(ctx, deep)
     yield from oracle_pipeline_espirit(ctx, deep)
@@ -680,6 +726,8 @@ def replay_ext(rep: dict):
     op = rep.get("op")
     if op == "matrix":
         return matrix_case(rep["spec"]) is not None
+    if op == "offmask":
+        return offmask_case(rep["spec"]) is not None
     if op == "espirit":
         return espirit_case(rep["spec"]) is not None
     if op == "pipeline_espirit":
